@@ -71,17 +71,26 @@ package round
 
 //@ func (*Helper).HashForID
 //@   nopanic[C05,C17]
+//@   sequential
 //@   requires h != nil && !excl(h.mtx)
+//@   modifies nothing
+//@   allocates
 //@   ensures !excl(h.mtx) && result != nil && result.h != nil
 
 //@ func (*Helper).Hash
 //@   nopanic[C05,C17]
+//@   sequential
 //@   requires h != nil && !excl(h.mtx)
+//@   modifies nothing
+//@   allocates
 //@   ensures !excl(h.mtx) && result != nil && result.h != nil
 
 //@ func (*Helper).UpdateHashState
 //@   nopanic[C05,C17]
+//@   sequential
 //@   requires h != nil && !excl(h.mtx) && hashable(value)
+//@   modifies nothing
+//@   allocates
 //@   ensures !excl(h.mtx)
 
 //@ func (*Helper).BroadcastMessage
